@@ -6,7 +6,7 @@
    sequence of allocation failures). *)
 From Coq Require Import NArith Arith List Bool.
 Import ListNotations.
-Require Import UV.C03.Model UV.C03.Inv UV.C03.Proofs UV.C03.Lost UV.C03.Fits UV.C03.Progress UV.C03.Kick.
+Require Import UV.C03.Model UV.C03.Inv UV.C03.Proofs UV.C03.Lost UV.C03.Fits UV.C03.Progress UV.C03.Kick UV.C03.Shrink.
 
 (* The invariant (UV.C03.Inv.Inv) holds in every reachable state:  for every thread t
      file t ++ contents of (writer's head ++ writer's bufs ++ t's part of buf_write_list ++
@@ -124,6 +124,33 @@ Theorem C03_lost_tail_unreported_refuted :
             bytes_of (file s 0) = r16 1 ++ r16 2.
 Proof. exact tail_loss_unreported_refuted. Qed.
 Print Assumptions C03_lost_tail_unreported_refuted.
+
+(* The "shrink unused buffers" block of get_new_shmem_buffer (nr_buf--, munmap; the next allocation re-creates the
+   shm object with O_TRUNC): in every reachable state it gives up only a buffer whose flag is exactly WRITTEN -
+   released by the recorder and not taken again - which is in no thread's chain, so nothing pending is forgotten
+   (the step itself preserves C03_inv: the shrink is part of P_emit) ... *)
+Theorem C03_shrink_only_released : forall c nw s t idx, reach c nw s -> nbuf (shrink s t idx) t <> nbuf s t ->
+  nbuf (shrink s t idx) t = nbuf s t - 1 /\ idx + 3 <= nbuf s t /\
+  is_wr (flag s (t, nbuf s t - 1)) = true /\ data (shrink s t idx) = data s /\
+  forall t', ~ In (t, nbuf s t - 1) (chain s t').
+Proof. exact shrink_only_released. Qed.
+Print Assumptions C03_shrink_only_released.
+
+Theorem C03_shrink_keeps_chain : forall c nw s t idx t' b, reach c nw s -> In b (chain s t') ->
+  snd b < nbuf (shrink s t idx) t'.
+Proof. exact shrink_keeps_chain. Qed.
+Print Assumptions C03_shrink_keeps_chain.
+
+(* ... and the exact comparison is needed: in the reachable state "ring of 4, buffers 1 2 3 written once, re-used,
+   full and waiting for a stalled writer (WRITTEN|RECORDING), buffer 0 released" the code keeps the ring, while
+   the test `flag & WRITTEN` would give up buffer 3 whose record has not reached the file. *)
+Theorem C03_shrink_loose_refuted :
+  exists s, run {| maxsize := 16 |} (init 1) stall_trace = Some s /\
+    find_free s 0 = Some 0 /\ nbuf s 0 = 4 /\ nbuf (shrink s 0 0) 0 = 4 /\ nbuf (shrink_loose s 0 0) 0 = 3 /\
+    In (0, 3) (chain s 0) /\ data s (0, 3) = [r16 8] /\
+    In (0, 1) (chain s 0) /\ In (0, 2) (chain s 0) /\ flag_word (flag s (0, 3)) = 6%N.
+Proof. exact shrink_loose_refuted. Qed.
+Print Assumptions C03_shrink_loose_refuted.
 
 (* No buffer is ever filled beyond its capacity (no write past the shm object, nothing torn), for records of
    any size (argument payloads: the size test counts 16 + argsize, `size` advances by 16 + ALIGN (argsize, 8)),
